@@ -145,4 +145,22 @@ example :
     simp only [ops, hfits, HOp.spareOk, HOp.fits, h1, h2, h3']
     decide
 
+/-- non-vacuity for blocks of calls on a view inside a history: on the window (1,1)-(3,3) of a 4x3 array write a cell, then
+    exchange the window's two rows; only the window changes -/
+example :
+    let e : HEnv := ⟨.release, 1000, 1000⟩
+    let ops : List (HOp Nat) := [.viaView (1, 1) (3, 3) [.set 0 0 99, .swapRows 0 1]]
+    (hrun e ⟨[1, 2, 3, 4, 5, 6, 7, 8, 9, 10, 11, 12], 3, 4⟩ ops).grid = [[1, 2, 3, 4], [5, 10, 11, 8], [9, 99, 7, 12]] ∧
+    grun [[1, 2, 3, 4], [5, 6, 7, 8], [9, 10, 11, 12]] ops = some [[1, 2, 3, 4], [5, 10, 11, 8], [9, 99, 7, 12]] ∧
+    hflowRun e ⟨[1, 2, 3, 4, 5, 6, 7, 8, 9, 10, 11, 12], 3, 4⟩ ops = ⟨[99], [], [6], []⟩ := by
+  intro e ops
+  have h1 : hstep e ⟨[1, 2, 3, 4, 5, 6, 7, 8, 9, 10, 11, 12], 3, 4⟩ (.viaView (1, 1) (3, 3) [.set 0 0 99, .swapRows 0 1])
+      = ⟨[1, 2, 3, 4, 5, 10, 11, 8, 9, 99, 7, 12], 3, 4⟩ := by rfl
+  refine ⟨?_, ?_, ?_⟩
+  · simp only [ops, hrun, List.foldl_cons, List.foldl_nil]
+    rw [h1]
+    decide
+  · decide
+  · rfl
+
 end Toodee
